@@ -1,1 +1,34 @@
-fn main(){}
+mod corpus;
+mod gen;
+mod input;
+mod model;
+mod oracle;
+mod probes;
+mod run;
+mod schema;
+mod world;
+
+use simcore::run_seed;
+
+fn main() {
+    run::install_panic_hook();
+    let args: Vec<String> = std::env::args().collect();
+    let seed: u64 = args.get(1).and_then(|s| s.parse().ok()).unwrap_or(1);
+    let n: u64 = args.get(2).and_then(|s| s.parse().ok()).unwrap_or(10);
+    let mode: &'static str = match args.get(3).map(|s| s.as_str()) { Some("wild") => "wild", Some("map") => "map", _ => "strict" };
+    let recvs = schema::recvs();
+    let mut bad = 0;
+    for i in 0..n {
+        let sc = gen::generate(run_seed(seed, i), mode, recvs);
+        let j = run::run(&sc, recvs);
+        if let Some(h) = &j.harness_error { println!("#{} HARNESS {}", i, h); bad += 1; continue; }
+        if !j.failures.is_empty() {
+            bad += 1;
+            if bad <= 12 {
+                println!("#{} {} {:?}\n  src: {}\n  env: {:?}\n  exp: {}\n  obs: {:?}", i, sc.receiver, sc.entry, j.source.trim(), sc.env.faults, j.expected, j.outcome);
+                for f in &j.failures { println!("  FAIL {} {}", f.rule, f.detail); }
+            }
+        }
+    }
+    println!("{} / {} runs with failures", bad, n);
+}
